@@ -476,6 +476,41 @@ func opC04Tile(raw json.RawMessage, o *Out) {
 			pts = append(pts, tp{ep.p, ep.what + " of " + m.name, -1})
 		}
 	}
+	// the one-member tiling {full} and the empty family: the special loops and polygons must
+	// contain every point / no point, and Invert() must exchange them
+	type special struct {
+		name string
+		f    func(p s2.Point) bool
+		want bool
+	}
+	fullInv, emptyInv := s2.FullLoop(), s2.EmptyLoop()
+	fullInv.Invert()
+	emptyInv.Invert()
+	fpInv, epInv := s2.FullPolygon(), s2.PolygonFromLoops(nil)
+	fpInv.Invert()
+	epInv.Invert()
+	specials := []special{
+		{"FullLoop.ContainsPoint", s2.FullLoop().ContainsPoint, true},
+		{"EmptyLoop.ContainsPoint", s2.EmptyLoop().ContainsPoint, false},
+		{"FullLoop.Invert.ContainsPoint", fullInv.ContainsPoint, false},
+		{"EmptyLoop.Invert.ContainsPoint", emptyInv.ContainsPoint, true},
+		{"FullPolygon.ContainsPoint", s2.FullPolygon().ContainsPoint, true},
+		{"PolygonFromLoops(FullLoop).ContainsPoint", s2.PolygonFromLoops([]*s2.Loop{s2.FullLoop()}).ContainsPoint, true},
+		{"EmptyPolygon.ContainsPoint", s2.PolygonFromLoops(nil).ContainsPoint, false},
+		{"FullPolygon.Invert.ContainsPoint", fpInv.ContainsPoint, false},
+		{"EmptyPolygon.Invert.ContainsPoint", epInv.ContainsPoint, true},
+	}
+	for _, sp := range specials {
+		sp := sp
+		for _, pt := range pts[:8] {
+			pt := pt
+			c06Try(o, "c04tile/special-panic/"+sp.name, sp.name+" at "+pt.what, func() {
+				if g := sp.f(pt.p); g != sp.want {
+					o.Fail("c04tile/special/"+sp.name, "%s = %v, must be %v at %s", sp.name, g, sp.want, pt.what)
+				}
+			})
+		}
+	}
 	for _, pt := range pts {
 		pt := pt
 		count := 0
